@@ -151,6 +151,7 @@ class Registry:
 class Gen:
     def __init__(self, reg, it, variant):
         self.reg, self.it, self.variant = reg, it, variant
+        self.falsy = variant == 4      # every leaf is the falsy value of its type (0, False, '', b'', []): present, and to be written as such
         self.n = 0
         self.too_deep = False
 
@@ -167,11 +168,13 @@ class Gen:
     def value(self, t, depth):
         """-> (value for the writer, expected parse result, expected encoding as rope parts)"""
         it = self.it
+        if t in INTW and self.falsy:
+            return K(0), K(0), [(K(b'\x00' * INTW[t]), INTW[t])]
         if t in INTW:
             v = self.fresh('i', ty='int')
             return v, v, [(Term('to_bytes', v, K(INTW[t]), K('little'), K(True)), INTW[t])]
         if t == 'Bool':
-            b = bool((self.n + self.variant) % 2)
+            b = bool((self.n + self.variant) % 2) and not self.falsy
             self.n += 1
             return K(b), K(b), [(K(b'\xb5ur\x99' if b else b'7\x97y\xbc'), 4)]
         if t in ('int128', 'int256'):
@@ -179,7 +182,7 @@ class Gen:
             x = self.fresh('h', ty='bytes', n=n)
             return Term('hex', x), Term('hex', x), [(x, n)]
         if t in ('bytes', 'string'):
-            L = BYTE_LENS[(self.n * 7 + self.variant * 3) % len(BYTE_LENS)]
+            L = BYTE_LENS[(self.n * 7 + self.variant * 3) % len(BYTE_LENS)] if not self.falsy else 0
             x = self.fresh('b', ty='bytes', n=L)
             enc = self.tl_bytes([(x, L)] if L else [], L)
             if t == 'bytes':
@@ -188,7 +191,7 @@ class Gen:
             return s, s, enc
         if t.startswith('('):
             sub = t[1:-1].split()[1]
-            k = (self.n + self.variant) % 4
+            k = (self.n + self.variant) % 4 if not self.falsy else 0
             self.n += 1
             vals, exps, enc = [], [], [(K(k.to_bytes(4, 'little')), 4)]
             for _ in range(k):
@@ -320,6 +323,8 @@ def _worker(arg):
     for name in names:
         d = reg.by_name[name]
         for variant in variants:
+            if variant == 4 and not any('?' in t for _, t in d['args']):
+                continue        # the falsy-values variant is about flag-selected fields
             it = mk(prog)
             g = Gen(reg, it, variant)
             try:
@@ -425,7 +430,7 @@ def check(run):
     run.count('constructors_supported', len(names))
     run.info(f'{len(names)} of {len(reg.decls)} bundled declarations have only supported field types; unsupported classes: ' +
              '; '.join(f'{k}: {len(v)}' for k, v in sorted(unsupported.items(), key=lambda kv: -len(kv[1]))[:8]))
-    variants = (0, 1, 2, 3) if thorough else (0, 1)
+    variants = (0, 1, 2, 3, 4) if thorough else (0, 1, 4)
     nproc = min(16, mp.cpu_count())
     chunks = [(prog.pkg, names[i::nproc], variants) for i in range(nproc)]
     with mp.Pool(nproc) as pool:
